@@ -42,69 +42,115 @@ fn strings(alphabet: &[u8], maxlen: usize, f: &mut dyn FnMut(&[u8])) {
     rec(alphabet, maxlen, &mut Vec::new(), f);
 }
 
+/// short inputs in full, long ones as length + the non-zero bytes with their positions
+fn show(s: &[u8]) -> String {
+    if s.len() <= 64 {
+        return hex(s);
+    }
+    let nz: Vec<String> = s.iter().enumerate().filter(|(_, b)| **b != 0).take(24).map(|(i, b)| format!("{}:{:02x}", i, b)).collect();
+    format!("len{}[zero-filled-except {}]", s.len(), nz.join(","))
+}
+
+/// pumps the whole stream `s` through a fresh StreamChunker and checks C08 on every chunk
+fn run_one(s: &[u8], block: usize, step: usize, eintr_at: usize, max_pumps: usize) {
+        let mut arena = owning_iovec::ByteArena::default();
+        let mut chunker = StreamChunker::default();
+        let mut reader = Dribble { data: s, step, calls: 0, eintr_at };
+        let mut rebuilt: Vec<u8> = Vec::new();
+        let mut prev_data_ended_in_fe = false;
+        let mut pumps = 0;
+        loop {
+            pumps += 1;
+            if pumps > max_pumps {
+                println!("VERIF-CEX kind=chunker-no-eof input={} block={} step={} eintr_at={}", show(s), block, step, eintr_at);
+                panic!("VERIF-CEX");
+            }
+            let bad = |what: &str| -> ! {
+                println!("VERIF-CEX kind=chunker-{} input={} block={} step={} eintr_at={}", what, show(s), block, step, eintr_at);
+                panic!("VERIF-CEX {}", what);
+            };
+            let chunk = match chunker.pump(&mut arena, &mut reader, block) {
+                Ok(c) => c,
+                Err(e) if e.kind() == std::io::ErrorKind::Interrupted => continue,
+                Err(_) => bad("io-error"),
+            };
+            match chunk {
+                Chunk::Eof => {
+                    if rebuilt != s {
+                        bad("eof-before-end");
+                    }
+                    break;
+                }
+                Chunk::Sentinel(o) => {
+                    rebuilt.extend_from_slice(&[0xfe, 0xfd]);
+                    if o as usize != rebuilt.len() || !s.starts_with(&rebuilt) {
+                        bad("sentinel-not-in-stream");
+                    }
+                    prev_data_ended_in_fe = false;
+                }
+                Chunk::Data((o, d)) => {
+                    let d = d.slice();
+                    if d.is_empty() {
+                        bad("empty-data");
+                    }
+                    if d.windows(2).any(|w| w == [0xfe, 0xfd]) {
+                        bad("sentinel-hidden-in-data");
+                    }
+                    if prev_data_ended_in_fe && d[0] == 0xfd {
+                        bad("sentinel-straddles-data-chunks");
+                    }
+                    rebuilt.extend_from_slice(d);
+                    if o as usize != rebuilt.len() || !s.starts_with(&rebuilt) {
+                        bad("data-not-in-stream");
+                    }
+                    prev_data_ended_in_fe = *d.last().unwrap() == 0xfe;
+                }
+            }
+        }
+}
+
 #[test]
 fn verif_cex_chunker_tiles_the_stream() {
     strings(&[0x00, 0xfd, 0xfe], 6, &mut |s: &[u8]| {
         for block in 0..=5usize {
             for step in [1usize, 2, 1000] {
-              // one interrupted call at every position of the schedule (usize::MAX = none); a caller retries on EINTR
-              for eintr_at in [usize::MAX, 0, 1, 2, 3, 4, 5] {
-                let mut arena = owning_iovec::ByteArena::default();
-                let mut chunker = StreamChunker::default();
-                let mut reader = Dribble { data: s, step, calls: 0, eintr_at };
-                let mut rebuilt: Vec<u8> = Vec::new();
-                let mut prev_data_ended_in_fe = false;
-                let mut pumps = 0;
-                loop {
-                    pumps += 1;
-                    if pumps > 64 {
-                        println!("VERIF-CEX kind=chunker-no-eof input={} block={} step={} eintr_at={}", hex(s), block, step, eintr_at);
-                        panic!("VERIF-CEX");
-                    }
-                    let bad = |what: &str| -> ! {
-                        println!("VERIF-CEX kind=chunker-{} input={} block={} step={} eintr_at={}", what, hex(s), block, step, eintr_at);
-                        panic!("VERIF-CEX {}", what);
-                    };
-                    let chunk = match chunker.pump(&mut arena, &mut reader, block) {
-                        Ok(c) => c,
-                        Err(e) if e.kind() == std::io::ErrorKind::Interrupted => continue,
-                        Err(_) => bad("io-error"),
-                    };
-                    match chunk {
-                        Chunk::Eof => {
-                            if rebuilt != s {
-                                bad("eof-before-end");
-                            }
-                            break;
-                        }
-                        Chunk::Sentinel(o) => {
-                            rebuilt.extend_from_slice(&[0xfe, 0xfd]);
-                            if o as usize != rebuilt.len() || !s.starts_with(&rebuilt) {
-                                bad("sentinel-not-in-stream");
-                            }
-                            prev_data_ended_in_fe = false;
-                        }
-                        Chunk::Data((o, d)) => {
-                            let d = d.slice();
-                            if d.is_empty() {
-                                bad("empty-data");
-                            }
-                            if d.windows(2).any(|w| w == [0xfe, 0xfd]) {
-                                bad("sentinel-hidden-in-data");
-                            }
-                            if prev_data_ended_in_fe && d[0] == 0xfd {
-                                bad("sentinel-straddles-data-chunks");
-                            }
-                            rebuilt.extend_from_slice(d);
-                            if o as usize != rebuilt.len() || !s.starts_with(&rebuilt) {
-                                bad("data-not-in-stream");
-                            }
-                            prev_data_ended_in_fe = *d.last().unwrap() == 0xfe;
-                        }
-                    }
+                // one interrupted call at every position of the schedule (usize::MAX = none); a caller retries on EINTR
+                for eintr_at in [usize::MAX, 0, 1, 2, 3, 4, 5] {
+                    run_one(s, block, step, eintr_at, 64);
                 }
-              }
             }
         }
     });
+}
+
+/// Large I/O blocks (every in-tree test and the enumeration above use blocks of a few bytes): long zero-filled streams with
+/// FE / FD / FE FD placed around the powers of two where a buffer cap or a block boundary could sit.
+#[test]
+fn verif_cex_chunker_large_blocks() {
+    let len = 140_000usize;
+    let mut marks: Vec<usize> = Vec::new();
+    for p in [1usize << 12, 1 << 13, 1 << 15, 1 << 16, 1 << 17] {
+        for d in 0..=4usize {
+            marks.push(p + d - 2);
+        }
+    }
+    let patterns: [&[u8]; 5] = [&[0xfe, 0xfd], &[0xfe], &[0xfe, 0xfe, 0xfd], &[0xfd, 0xfe], &[0xfe, 0x00, 0xfd]];
+    for &block in &[4096usize, 65_536, 65_537, 100_000, 1 << 17, 1 << 20] {
+        for &at in &marks {
+            for pat in patterns {
+                let mut s = vec![0u8; len];
+                s[at..at + pat.len()].copy_from_slice(pat);
+                // a second sentinel early on, so that the buffer handed to the scan does not start at a block boundary
+                for lead in [usize::MAX, 5] {
+                    if lead != usize::MAX {
+                        s[lead] = 0xfe;
+                        s[lead + 1] = 0xfd;
+                    }
+                    for step in [usize::MAX, 50_000] {
+                        run_one(&s, block, step, usize::MAX, 4096);
+                    }
+                }
+            }
+        }
+    }
 }
